@@ -4,6 +4,7 @@ mod driver;
 mod gen;
 mod ackrun;
 mod sketchrun;
+mod stress;
 
 use std::io::{BufRead, BufWriter, Write};
 use std::time::Duration;
@@ -24,6 +25,7 @@ fn main() {
             if quiet_panics { std::panic::set_hook(Box::new(|_| {})); }
             let input = std::io::BufReader::new(std::fs::File::open(&scenarios).expect("open scenarios"));
             let mut out = BufWriter::new(std::fs::File::create(&out_path).expect("create out"));
+            let mut lock_out = arg_value(&args, "--locks").map(|path| BufWriter::new(std::fs::File::create(&path).expect("create locks")));
             let mut summary = Vec::new();
             let mut run_no = 0;
             for line in input.lines() {
@@ -32,7 +34,7 @@ fn main() {
                 let scenario: model::Scenario = serde_json::from_str(&line).expect("scenario json");
                 run_no += 1;
                 let outcome = {
-                    let mut driver = driver::Driver { out: &mut out, run_no, step_timeout: Duration::from_millis(timeout_ms) };
+                    let mut driver = driver::Driver { out: &mut out, locks: lock_out.as_mut().map(|writer| writer as &mut dyn Write), run_no, step_timeout: Duration::from_millis(timeout_ms) };
                     driver.run(&scenario)
                 };
                 summary.push(serde_json::json!({"run": run_no, "name": scenario.name, "steps": outcome.steps, "hang": outcome.hang, "stuck": outcome.stuck}));
@@ -45,6 +47,7 @@ fn main() {
                 }
             }
             out.flush().unwrap();
+            if let Some(writer) = lock_out.as_mut() { writer.flush().unwrap(); }
             println!("SUMMARY {}", serde_json::Value::Array(summary));
         }
         "ackrun" => {
@@ -90,6 +93,17 @@ fn main() {
                 Ok((tour, accesses)) => println!("SUMMARY {}", serde_json::json!([{"run": 1, "name": "sketch", "steps": tour + accesses, "hang": null, "stuck": false, "tour": tour, "accesses": accesses}])),
                 Err(_) => { println!("PANIC in the sketch code under test"); std::process::exit(4); }
             }
+        }
+        "stress" => {
+            let seed: u64 = arg_value(&args, "--seed").map(|value| value.parse().unwrap()).unwrap_or(1);
+            let rounds: usize = arg_value(&args, "--rounds").map(|value| value.parse().unwrap()).unwrap_or(20);
+            let threads: usize = arg_value(&args, "--threads").map(|value| value.parse().unwrap()).unwrap_or(4);
+            let ops: usize = arg_value(&args, "--ops").map(|value| value.parse().unwrap()).unwrap_or(300);
+            let timeout_ms: u64 = arg_value(&args, "--timeout-ms").map(|value| value.parse().unwrap()).unwrap_or(20_000);
+            std::panic::set_hook(Box::new(|_| {}));
+            let outcome = stress::run(seed, rounds, threads, ops, Duration::from_millis(timeout_ms));
+            println!("STRESS {}", serde_json::json!({"rounds": outcome.rounds, "ops": outcome.ops, "stall": outcome.stall}));
+            if outcome.stall.is_some() { std::process::exit(3); }
         }
         "gen" => {
             let profile = arg_value(&args, "--profile").expect("--profile");
